@@ -81,7 +81,7 @@ class Run:
 
     def collect(self):
         for st, c, rec in self.records:
-            ctx = c.get("method") or c.get("ctx") or st["name"]
+            ctx = c.get("ctx") or c.get("method") or st["name"]
             status = rec.get("_status")
             if status == "harness":
                 self.harness_failures.append("%s: %s" % (c["id"], rec.get("_detail")))
@@ -102,6 +102,9 @@ class Run:
             elif status == "timeout":
                 self.inconclusive += 1
             for v in rec.get("viol", []):
+                if v["key"].startswith("harness|"):
+                    self.harness_failures.append("%s: %s %s" % (c["id"], v["key"], v["detail"][-300:]))
+                    continue
                 key = "%s|%s|%s" % (self.pid, ctx, v["key"])
                 self.violations.append(dict(key=key, detail=v["detail"], stage=st, case=c, log=""))
             if rec.get("inconclusive"):
